@@ -83,6 +83,12 @@ class merge_points:
             f = am.Model.__dict__["update_links"]
             self.saved.append((am.Model, "update_links", f))
             am.Model.update_links = outlined(f, am.__dict__, which={0}, label="Model.update_links")
+        if self.outline_pars:
+            f = am.Model.__dict__["update_pars"]
+            self.saved.append((am.Model, "update_pars", f))
+            # top-level loops of update_pars: [0] characteristics, [1] dynamic parameters (per-name body: function evaluation,
+            # program overwrite, population aggregation, constrain)
+            am.Model.update_pars = outlined(f, am.__dict__, which={1}, label="Model.update_pars")
         return self
 
     def __exit__(self, *exc):
